@@ -17,7 +17,7 @@ RULE = (
     "(a) exhaustive over all 1,112,064 Unicode scalar values (blocks of 4096 code points = one evaluation each): expected class from "
     "unicodedata (Z*/C*/Ps/Pe/','/';' -> one blank, Pd/U+2010-2015/U+2043 -> '-'); unassigned-in-unicodedata and regex-vs-unicodedata "
     "disagreements are counted, not judged.  All separator runs of length <=3 over one representative per class, relational oracle "
-    "(variant must normalise like its ASCII counterpart), idempotence on every output.  (b) every sentence of ctparse/time/corpus.py x "
+    "(variant must normalise like its ASCII counterpart), idempotence on every output.  (b) every sentence of ctparse/time/corpus.py and every canonical grammar sentence (+ am/pm forms at hours 1, 11, 12) x "
     "separator / dash / case variants, obs-equality with the base parse.  Non-trivial = a case whose variant text differs from the base text."
 )
 ASSUMPTIONS = [
@@ -43,11 +43,19 @@ def klass(c):
 
 def _corpus():
     from ctparse.time.corpus import corpus
+    from .. import grammar
 
     out = []
     for target, ts, tests in corpus:
         for t in tests:
             out.append((t, ts))
+    # + the canonical grammar sentences (12 am / 12 pm, every family), so that case and separator variants hit every production
+    for _, s_ in grammar.sentences():
+        out.append((s_, "2018-03-07T12:43"))
+    for h in (1, 11, 12):
+        for ap in ("am", "pm", "a.m.", "p.m."):
+            out.append(("tomorrow {} {}".format(h, ap), "2018-03-07T12:43"))
+            out.append(("{}:30 {}".format(h, ap), "2018-03-07T12:43"))
     return list(dict.fromkeys(out))
 
 
